@@ -57,7 +57,7 @@ theorem addChanges_nodup (ch : List (Nat × Nat)) (T : Nat) (ops : List OpEntry)
 /-- no duplicate change row in the working database, the committed snapshot, and every open
 savepoint snapshot -/
 def ChgNodup (s : St) : Prop :=
-  s.db.changes.Nodup ∧ s.committed.changes.Nodup ∧ ∀ d ∈ s.sps, d.changes.Nodup
+  s.db.changes.Nodup ∧ s.committed.changes.Nodup ∧ ∀ d ∈ s.sps, d.1.changes.Nodup
 
 theorem step_afterFlush_changes {cfg : Cfg} {s : St} {T : Nat} (h : s.uowD.cur = some T) :
     (step cfg s .afterFlush).db.changes =
@@ -139,8 +139,8 @@ theorem chgNodup_step (cfg : Cfg) (s : St) (e : Ev) (h : ChgNodup s) : ChgNodup 
     simp only [step]
     split
     · exact ⟨hd, hc, hs⟩
-    · rename_i snap rest heq
-      refine ⟨hs snap (by rw [heq]; exact List.mem_cons_self), hc, ?_⟩
+    · rename_i snap u rest heq
+      refine ⟨hs (snap, u) (by rw [heq]; exact List.mem_cons_self), hc, ?_⟩
       intro d hm
       exact hs d (by rw [heq]; exact List.mem_cons_of_mem _ hm)
 
